@@ -300,14 +300,23 @@ func init() {
 			default:
 				// generated destination types x documents (valid, mutated, truncated)
 				r := c.RNG(0)
-				for k := 0; k < ntyped; k++ {
-					t, feat := gen.Type(rt.FixedRNG("C06type", c.Idx*64+k), 3, gen.TypeOpts{FeatureProb: 30})
+				// ntyped types from the grammar, then every catalogued odd shape four times (the
+				// alternatives inside a shape are drawn, so several draws each)
+				nsweep := 4 * len(gen.Features)
+				for k := 0; k < ntyped+nsweep; k++ {
+					var t reflect.Type
+					var feat string
+					if k < ntyped {
+						t, feat = gen.Type(rt.FixedRNG("C06type", c.Idx*64+k), 3, gen.TypeOpts{FeatureProb: 30})
+					} else {
+						t, feat = gen.Type(rt.FixedRNG("C06feat", c.Idx*4096+k), 1, gen.TypeOpts{Feature: 1 + (k-ntyped)%len(gen.Features)})
+					}
 					v := gen.Value(r, t, 3, gen.ValOpts{RoundTrip: true})
 					base, err := stdRenderBytes(v.Interface())
 					if err != nil {
 						continue
 					}
-					docs := [][]byte{base, gen.MutateDoc(r, base, gen.DocMutations[r.Intn(len(gen.DocMutations))]), gen.Doc(r, 2)}
+					docs := [][]byte{base, gen.MutateDoc(r, base, gen.DocMutations[r.Intn(len(gen.DocMutations))]), gen.Doc(r, 2), gen.MutateDoc(r, base, "quoted-value")}
 					if len(base) > 2 {
 						docs = append(docs, base[:r.Intn(len(base))])
 						m := append([]byte{}, base...)
